@@ -129,6 +129,62 @@ Definition reject_spec (o : ropts) (pts : list point) : list bool * bool :=
                 (combine (seq 0 (length pts)) pts) in
   (nm, list_beq nm (map p_out pts)).
 
+(* ---- calls that supply BOTH keywords (or neither).  The documentation: "If both sigma and invvar are set, invvar
+   will be ignored"; the property: limits "in units of the supplied sigma or 1/sqrt(invvar)".
+   A point2 carries the values of both keywords at that point (0 where the keyword is absent); the call says which
+   keywords were given. *)
+Record point2 := mkP2 { q_pt : point; q_sigma : Q; q_invvar : Q }.
+
+Definition with_scale (p : point) (sc : scale) : point := mkP (p_data p) (p_model p) sc (p_in p) (p_out p).
+Definition pick_scale (use_sigma : bool) (q : point2) : scale := if use_sigma then Sig (q_sigma q) else Ivar (q_invvar q).
+
+(* M: every limit branch picks its scaling by the GENERATED test of the source (rej_lower_use_sigma, rej_upper_use_sigma:
+   `sigma is not None`); sigma counts as given after the estimation block ran (rej_estimates_sigma) *)
+Definition lower_term (o : ropts) (d : Q) (sc : scale) : Q :=
+  match o_lower o with
+  | None => 0
+  | Some l =>
+    match sc with
+    | Sig s => rej_lower_sig_term d l s (rej_lower_sig_qbad d l s)
+    | Ivar iv => rej_lower_iv_term d l iv (rej_lower_iv_qbad d l iv)
+    end
+  end.
+Definition upper_term (o : ropts) (d : Q) (sc : scale) : Q :=
+  match o_upper o with
+  | None => 0
+  | Some u =>
+    match sc with
+    | Sig s => rej_upper_sig_term d u s (rej_upper_sig_qbad d u s)
+    | Ivar iv => rej_upper_iv_term d u iv (rej_upper_iv_qbad d u iv)
+    end
+  end.
+Definition maxdev_term (o : ropts) (d : Q) : Q :=
+  match o_maxdev o with None => 0 | Some x => rej_maxdev_term d x (rej_maxdev_qbad d x) end.
+
+Definition badness2 (o : ropts) (p : point) (scl scu : scale) : Q :=
+  let d := p_data p - p_model p in lower_term o d scl + upper_term o d scu + maxdev_term o d.
+
+Definition sigma_set (sg ivg : bool) : bool := sg || rej_estimates_sigma sg ivg.
+
+Definition reject_model2 (o : ropts) (sg ivg : bool) (qs : list point2) : list bool * bool :=
+  let s' := sigma_set sg ivg in
+  let newmask := map (fun q => rej_newmask (rej_products
+                                (badness2 o (q_pt q) (pick_scale (rej_lower_use_sigma s' ivg) q) (pick_scale (rej_upper_use_sigma s' ivg) q))
+                                (p_in (q_pt q)) (p_out (q_pt q)) (o_sticky o))) qs in
+  let grown := grow_model (o_grow o) newmask in
+  let final := map (fun gq => rej_final (fst gq) (p_in (q_pt (snd gq))) (p_out (q_pt (snd gq))) (o_sticky o)) (combine grown qs) in
+  (final, rej_qdone final (map (fun q => p_out (q_pt q)) qs)).
+
+(* S: the documented choice -- the supplied sigma sets the units whenever sigma is supplied (invvar is then ignored),
+   1/sqrt(invvar) when only invvar is; with neither keyword only the absolute limit is inside the property
+   (call2_ok), and then the scale is never looked at.  Independent of Generated. *)
+Definition supplied_scale (sg : bool) (q : point2) : scale := if sg then Sig (q_sigma q) else Ivar (q_invvar q).
+Definition resolve (sg : bool) (q : point2) : point := with_scale (q_pt q) (supplied_scale sg q).
+Definition reject_spec2 (o : ropts) (sg ivg : bool) (qs : list point2) : list bool * bool :=
+  reject_spec o (map (resolve sg) qs).
+Definition call2_ok (o : ropts) (sg ivg : bool) : bool :=
+  sg || ivg || (match o_lower o with None => true | Some _ => false end && match o_upper o with None => true | Some _ => false end).
+
 (* preconditions under which M and S are proved equal (generator stays inside) *)
 Definition scale_ok (sc : scale) : bool := match sc with Sig s => Qle_bool 0 s | Ivar iv => Qle_bool 0 iv end.
 Definition opts_ok (o : ropts) : bool :=
@@ -656,6 +712,7 @@ Definition ndres_close (m r : ndres) : bool :=
 
 Inductive case :=
 | CReject (o : ropts) (pts : list point) (expect : rres)
+| CReject2 (o : ropts) (sg ivg : bool) (qs : list point2) (expect : rres)
 | CInterp (ys : list Q) (mask : list bool) (xval : option (list Q)) (expect : qres)
 | CInterpND (ys : list Q) (mask : list bool) (xval : option (list Q)) (shape : list nat) (axis : nat)
             (np_lines : list (list nat)) (expect : qres)
@@ -673,6 +730,8 @@ Definition verdict (model_ok spec_ok : bool) : Z :=
 Definition run_case (c : case) : Z :=
   match c with
   | CReject o pts expect => verdict (rres_eqb (reject_model o pts) expect) (rres_eqb (reject_spec o pts) expect)
+  | CReject2 o sg ivg qs expect =>
+      verdict (rres_eqb (reject_model2 o sg ivg qs) expect) (call2_ok o sg ivg && rres_eqb (reject_spec2 o sg ivg qs) expect)
   | CInterp ys mask xval expect =>
       verdict (qres_close (maskinterp1_model ys mask xval) expect) (qres_close (maskinterp1_spec ys mask xval) expect)
   | CInterpND ys mask xval shape axis np_lines expect =>
